@@ -2,7 +2,7 @@
    Gauss-Jordan elimination as (checked) inner solver and compares with the observations of the implementation.
    Compiled on every run; imported by the generated case files. *)
 From Coq Require Import QArith Qcanon Qabs List Bool ZArith.
-From Pymoto Require Import Base.Fld Base.QI Model.Lda.
+From Pymoto Require Import Base.Num Base.Fld Base.QI Model.Lda.
 Import ListNotations.
 
 (* checked oracle: the value handed to the model satisfies the inner-solver contract  op(A) X = R  by construction
@@ -84,5 +84,12 @@ Definition res_eqb (a b : option (err + @sres C)) : bool :=
 Definition separated (sym herm : option bool) (ops : list (@op C)) : bool :=
   all2 res_eqb (run_with FldC sym herm ops) (run_with (FldCg guard_eps) sym herm ops).
 
-(* a case counts only when it is separated; ill-separated cases are reported by the second list *)
-Definition check_case sym herm ops o slackz : bool := negb (separated sym herm ops) || check_hist sym herm ops o slackz.
+(* one evaluation per history: 0 = separated and model == implementation, 1 = separated and different,
+   2 = not separated (dropped, counted) *)
+Definition verdict sym herm ops o slackz : Z :=
+  let rx := run_with FldC sym herm ops in
+  if all2 res_eqb rx (run_with (FldCg guard_eps) sym herm ops)
+  then (if all2 (check_one FldC (inject_Z slackz)) rx o then 0 else 1)%Z
+  else 2%Z.
+Definition verdicts (v : list Z) : list nat * list nat :=
+  (failing (map (fun z => negb (z =? 1)%Z) v), failing (map (fun z => negb (z =? 2)%Z) v)).
